@@ -5,6 +5,7 @@ CONSTANTS
   Sem = @SEM@
   LayoutSel = @LAYOUTS@
   LowerNames <- LowerNamesMC
+  LongNamesLower = FALSE
 INIT Init
 NEXT Next
 INVARIANTS Emit LaidOK DerivedOK
